@@ -295,4 +295,23 @@ prop('C17', units=['frost_rerandomized'],
                   'end-to-end "any valid signer set produces a verifying signature" rests on the frost-core correctness statement (C01) applied to the key set for f + alpha'],
      design_ref='DESIGN.md section 4 C17')
 
+prop('C14',
+     all_functions=True, units=['frost_core', 'frost_rerandomized'],
+     level_text='Verus proves every function of the frost_core unit that is emitted in verified mode (all protocol steps that consume material from other parties: sign, aggregate, '
+                'aggregate_custom, verify_signature_share, detect_cheater, SecretShare::verify, KeyPackage::try_from, reconstruct, dkg part1/part2/part3, refresh_share, '
+                'compute_refreshing_shares, repair parts 1-3, batch verification, and the byte-level decoders Signature::default_deserialize, SerializableScalar/Element::deserialize, '
+                'VerifiableSecretSharingCommitment::deserialize framing, Header checks; the frost-rerandomized entry points in their unit) free of every panic the language can raise in them: '
+                'arithmetic overflow/underflow, division by zero, slice/Vec index out of bounds, unwrap()/expect() on None/Err, explicit panics and unreachable code -- for ALL inputs, '
+                'because the only preconditions of the entry points are on the caller\'s OWN secret state (dkg part2/part3: max_signers >= 1 and a non-empty coefficient vector, as '
+                'produced by part1), exactly the proviso of the property. Each call site is checked against the callee\'s precondition, so the internal helpers with preconditions '
+                '(evaluate_polynomial / from_coefficients: non-empty coefficients; compute_last_random_value: lengths; detect_cheater: identifiers known) are only reached with them established.',
+     level_note='Outside the Verus unit (not proved panic-free here): the serde/postcard layer of serialize()/deserialize() for whole packages (feature-gated code is dropped by rule E1; '
+                'Kani harnesses over toy suites, bounded, where listed), the ciphersuite crates (curve arithmetic, hash-to-field), frost-core/src/scalar_mul.rs (Kani-backed, bounded), '
+                'and every function listed as assumed in the evidence. Memory exhaustion, stack overflow and non-termination are not panics in this sense and not covered (loops have '
+                'decreases clauses except the rejection-sampling loop random_nonzero, T11).',
+     assumptions=['functions emitted in assumed mode (listed under trusted_base in the evidence) are not proved panic-free here',
+                  'vstd preconditions model the panics of the std functions used (unwrap, expect, indexing, slicing, copy_from_slice, chunks_exact)',
+                  'the ciphersuite trait methods (Field/Group/hash functions) do not panic: T3'],
+     design_ref='DESIGN.md section 4 C14')
+
 prop('CDEV', level_text='dev', level_note='dev', claimed=False)
